@@ -255,16 +255,18 @@ def run_ob(u, ob, inst, extra_defs, tier, use_cache=True, want_trace=True, reach
         repl = [x for x in o.get('replace', '').split(',') if x]
         if 'autoreplace' in ob.flags and (o.get('enforce') or o.get('stubroot')):
             stubs = set(info.get('autostubs', []))
+            contracted = {f_['name'] for f_ in info.get('functions', []) if f_.get('contract')}
             explicit = list(repl)
-            repl = []
-            seen, todo = set(), [o.get('stubroot') or o['enforce']]
+            repl = [x for x in explicit if x.startswith('vstream__') or x in ('pow',)]   # shim / libm functions are always linked in
+            root = o.get('stubroot') or o['enforce']
+            seen, todo = set(), [root]
             while todo:
                 f_ = todo.pop()
                 if f_ in seen:
                     continue
                 seen.add(f_)
                 for c_ in info.get('calls_by_fn', {}).get(f_, []):
-                    if c_ in stubs or c_ in explicit:
+                    if c_ in stubs or c_ in explicit or (c_ in contracted and c_ != root):
                         if c_ not in repl:
                             repl.append(c_)
                     else:
@@ -394,7 +396,8 @@ def _include_hash():
     global _ih
     if _ih is None:
         h = hashlib.sha1()
-        for p in sorted(glob.glob(os.path.join(INCLUDE, '*'))):
+        for p in sorted(glob.glob(os.path.join(INCLUDE, '*'))) + sorted(glob.glob(os.path.join(HERE, 'tools', '*.py'))) + \
+                [os.path.join(HERE, 'contracts', 'grids.json')]:
             h.update(open(p, 'rb').read())
         _ih = h.hexdigest()
     return _ih
